@@ -167,11 +167,13 @@ def harness_build(profile="debug", hooks=True, features=None, extra_rustflags=""
         return False, out[-6000:]
     return True, os.path.join(target, profile, "mv-harness")
 
-def run_lines(exe, casefile, env=None, timeout=1800):
+def run_lines(exe, casefile, env=None, timeout=None):
     """Run an executable on a case file, restarting after a crash so that one
-    faulting case does not hide the others. Returns list of (idx, res, trace)
-    with res == 'CRASH(<signal>)' for the case the process died on."""
+    faulting case does not hide the others. Returns list of (res, trace)
+    with res == 'CRASH(<signal>)' for the case the process died on and 'CRASH(timeout)' for a case
+    that did not finish within the time limit (a hang is a failure to return normally)."""
     n = sum(1 for _ in open(casefile))
+    timeout = timeout or int(os.environ.get("VERIF_CASE_TIMEOUT", str(600 + n // 20)))
     rows = {}
     start = 0
     guard = 0
@@ -180,26 +182,38 @@ def run_lines(exe, casefile, env=None, timeout=1800):
         e = dict(os.environ)
         if env:
             e.update(env)
-        p = subprocess.run([exe, casefile, str(start)], stdout=subprocess.PIPE, stderr=subprocess.PIPE,
-                           env=e, timeout=timeout, text=True, errors="replace")
+        pr = subprocess.Popen([exe, casefile, str(start)], stdout=subprocess.PIPE, stderr=subprocess.PIPE,
+                              env=e, text=True, errors="replace")
+        try:
+            out, _ = pr.communicate(timeout=timeout)
+            rc = pr.returncode
+        except subprocess.TimeoutExpired:
+            pr.kill()
+            out, _ = pr.communicate()
+            rc = "timeout"
         last = start - 1
-        for line in p.stdout.splitlines():
+        for line in out.splitlines():
             parts = line.split("\t")
             if len(parts) != 3:
                 continue
-            i = int(parts[0])
+            try:
+                i = int(parts[0])
+            except ValueError:
+                continue
             rows[i] = (parts[1], parts[2])
             last = i
-        if p.returncode == 0 and last == n - 1:
+        if rc == 0 and last == n - 1:
             break
-        if p.returncode == 0:
+        if rc == 0:
             # finished early without crash: should not happen
             for i in range(last + 1, n):
                 rows[i] = ("MISSING", "-")
             break
         crashed = last + 1
         if crashed < n:
-            rows[crashed] = (f"CRASH({p.returncode})", "-")
+            rows[crashed] = (f"CRASH({rc})", "-")
+        if rc == "timeout":
+            break              # one hang is enough; the rest of this shard stays MISSING
         start = crashed + 1
     return [rows.get(i, ("MISSING", "-")) for i in range(n)]
 
